@@ -47,15 +47,22 @@ CLAIMED = {
             "partial: the composition 'status at step k of the real exchange reaches the table lookup' is the "
             "model's control flow, tied to the code by the correspondence matrix (pages 0x69-0x6D complete at every "
             "step kind, all 65536 words for one step kind of sign and of advance, in thorough); namedCause is a trusted reading of firmware headers and docs"),
-    "C05": ("Lean theorems: brothers handed to the block operation are a permutation of the client's brothers and "
-            "pairwise ascending by hash key (total + transitive byte order, core mergeSort lemmas, stable); "
-            "length/count fields round-trip; chunk theorems of C01 apply to header transfers. The oracle "
+    "C05": ("Lean theorems for every device behaviour (every script): the block operation announces the client's "
+            "block count and then, for a prefix of the client's blocks in the client's order, sends each block's "
+            "metadata message (operation, BE16 merge-mining payload size, coinbase hash for advance) followed by "
+            "chunk messages whose payloads are a prefix of that block's own bytes; what lies between two blocks "
+            "(brother exchanges) contains no message of the main stream (block_operation_trace, blocks_in_order: "
+            "nothing skipped, repeated or reordered); the brothers of a block go out in the order of the list "
+            "handed over, each as metadata + prefix of its bytes (brothers_in_order), and that list is a "
+            "permutation of the client's brothers, pairwise ascending by hash key (brothers_sorted: total + "
+            "transitive byte order, core mergeSort lemmas, stable); length/count fields round-trip. The oracle "
             "Spec.C05.c05 re-parses the implementation's APDU trace into (metadata, header, brothers) segments and "
             "checks announced count, byte-exact in-order headers (mm fields removed for ancestor updates), "
             "metadata = BE16(mm payload length) || coinbase hash (hash recomputed independently from the full "
             "coinbase), brother count/sorting/permutation, and 0/1 exactly on total/partial success.",
-            "partial: RLP decode/encode and block-field removal are modelled and differentially checked, "
-            "mm_hash_invariant is not yet proved; keccak/SHA-256 uninterpreted"),
+            "RLP decode/encode and block-field removal are modelled and differentially checked (no round-trip "
+            "theorem); 0/1 exactly on total/partial success is decided by correspondence + oracle; "
+            "keccak/SHA-256 uninterpreted"),
     "C06": ("Lean theorems about the chain walk for paths of any length: the target is reported valid iff every "
             "link on its path verifies against its certifier (root of trust for the topmost one); otherwise the "
             "element named is the first one from the root down that does not verify and everything above it does; "
